@@ -377,3 +377,50 @@ impl<'a> ChangePassword<'a> {
         ensures r is Ok ==> chpw_post(self.vault@, self.current_key@, self.new_key@, match self.seed { Some(s) => Some(s.0@), None => None }, r->Ok_0.0@, r->Ok_0.1@, r->Ok_0.2@),
     { unimplemented!() }
 }
+
+// ---- account layer of module c12 (crates/account/src/local_account.rs) ------------------------------------
+/// `sos_account::Error`: the variant constructed here + the `#[from]` wrappers met on the `?` paths
+pub enum AccountError { NoFolderPassword(VaultId), Storage(ClientError), Authentication(AuthnError), Login(LoginError), Other }
+#[verifier::external]
+impl core::fmt::Debug for AccountError { fn fmt(&self, f: &mut core::fmt::Formatter<'_>) -> core::fmt::Result { Ok(()) } }
+pub type AcResult<T> = core::result::Result<T, AccountError>;
+impl From<ClientError> for AccountError { #[verifier::external_body] fn from(e: ClientError) -> AccountError { AccountError::Storage(e) } }
+impl From<AuthnError> for AccountError { #[verifier::external_body] fn from(e: AuthnError) -> AccountError { AccountError::Authentication(e) } }
+impl From<LoginError> for AccountError { #[verifier::external_body] fn from(e: LoginError) -> AccountError { AccountError::Login(e) } }
+/// `sos_core::Paths`, `sos_backend::BackendTarget` — opaque
+#[verifier::external_body]
+pub struct Paths { _p: () }
+#[verifier::external_body]
+pub struct BackendTarget { _p: () }
+/// `sos_client_storage::ClientStorage` (storage.rs: every trait method delegates to the backend variant); ghost state `gk()`
+#[verifier::external_body]
+pub struct ClientStorage { _p: () }
+impl ClientStorage {
+    pub uninterp spec fn gk(&self) -> KStoreV;
+}
+impl ClientBaseStorage for ClientStorage {
+    open spec fn kst(&self) -> KStoreV { self.gk() }
+    #[verifier::external_body]
+    fn account_id(&self) -> (r: &AccountId) { unimplemented!() }
+    #[verifier::external_body]
+    fn guard_authenticated(&self, _t: Internal) -> (r: ClResult<()>) { unimplemented!() }
+    #[verifier::external_body]
+    fn authenticated_user(&self) -> (r: Option<&LoginIdentity>) { unimplemented!() }
+    #[verifier::external_body]
+    fn authenticated_user_mut(&mut self) -> (r: Option<&mut LoginIdentity>) { unimplemented!() }
+}
+impl ClientVaultStorage for ClientStorage {
+    #[verifier::external_body]
+    fn write_vault(&mut self, vault: &Vault, _t: Internal) -> (r: ClResult<Vec<u8>>) { unimplemented!() }
+}
+impl ClientFolderStorage for ClientStorage {
+    #[verifier::external_body]
+    fn folders_mut(&mut self) -> (r: &mut HashMap<VaultId, Folder>) { unimplemented!() }
+    #[verifier::external_body]
+    fn folder_log(&self, folder_id: &VaultId) -> (r: ClResult<&VRwLock<FolderEventLog>>) { unimplemented!() }
+    #[verifier::external_body]
+    fn account_log(&mut self) -> (r: ClResult<&mut VRwLock<AccountEventLog>>) { unimplemented!() }
+    #[verifier::external_body]
+    fn read_vault(&self, id: &VaultId) -> (r: ClResult<Vault>) { unimplemented!() }
+}
+impl ClientAccountStorage for ClientStorage {}
